@@ -5,6 +5,7 @@ import (
 	"errors"
 	"fmt"
 	"math/rand"
+	"strings"
 	"sync"
 	"sync/atomic"
 
@@ -39,7 +40,7 @@ func init() {
 		Plan: func(tier string) Plan {
 			return Plan{Level: "fault_enumeration", NCases: pick(tier, 16*c07Chunks, 300*c07Chunks), Batch: 2, CaseTimeout: 300,
 				Rule: "histories are PRNG sequential write scripts (multi-version keys, tombstones below/at/above R, re-created keys, keys in skipped prefixes and outside the node's prefix) rebuilt identically on a fresh engine for every execution; " +
-					"for EVERY delete call i=1..D that a clean Compact(R) of the history makes (D learned from a dry run; positions are split over 4 cases per history) two executions are made: (a) delete i fails (generic error; compare-and-delete calls also with a failed-compare error), (b) every delete from i on fails (compactor died after i-1 deletions) and a NEW backend is opened on the store. " +
+					"for EVERY delete call i=1..D that a clean Compact(R) of the history makes (D learned from a dry run; positions are split over 4 cases per history) two executions are made: (a) delete i fails (generic error; compare-and-delete calls also with a failed-compare error), (b) every delete from i on fails (compactor died after i-1 deletions) and a NEW backend is opened on the store; and where delete i removes an index record, (c) a client re-creates that key right before the removal (placed through the storage wrapper). " +
 					"After each: all reads at revisions >= R (Get every key, List inside/outside the prefix, at R, at checkpoints above R and at latest) must equal the reference snapshot, then a clean Compact(R), the same reads again, then create/update/delete on every key against the reference; records outside the compaction ranges must be byte-identical. Every 5th history is instead the concurrent variant (writers on the keys being compacted while Compact runs). " +
 					"evaluations = executions (history x position x mode); non-trivial+distinct = executions in which the injected fault actually fired, identified by (history, position, mode)",
 				Assumptions: []string{"TTL expiry is inert here (TTL 1 h)", "reads overlapping a running compaction are not judged, only reads after it returned",
@@ -121,13 +122,21 @@ type c07Store struct {
 	failAt   int32 // 1-based position; 0 = none
 	failFrom bool
 	failErr  error
-	log      []string
+	// placement plan: call recreate(key) when delete call #recreateAt is the removal of an index record
+	recreateAt int32
+	recreate   func(key string)
+	log        []string
 	mu       sync.Mutex
 }
 
 func (s *c07Store) delFault(kind string, key []byte) error {
 	i := atomic.AddInt32(&s.delN, 1)
 	raw, rev, _ := coderC.Decode(key)
+	if s.recreateAt != 0 && i == s.recreateAt && rev == 0 && s.recreate != nil {
+		// placement: a client re-creates the (deleted) key after the scan has read its index record and just
+		// before the compaction removes that record
+		s.recreate(string(raw))
+	}
 	fail := s.failAt != 0 && (i == s.failAt || (s.failFrom && i >= s.failAt))
 	s.mu.Lock()
 	s.log = append(s.log, fmt.Sprintf("#%d %s %q@%d fail=%v", i, kind, raw, rev, fail))
@@ -338,6 +347,14 @@ func runC07(c *harness.Case) {
 		return
 	}
 	D := int(atomic.LoadInt32(&s.delN))
+	idxPos := map[int]bool{}
+	for _, l := range s.log {
+		var n int
+		var kindS string
+		if _, err := fmt.Sscanf(l, "#%d %s", &n, &kindS); err == nil && strings.Contains(l, "@0 ") {
+			idxPos[n] = true
+		}
+	}
 	ok := s.reads(c, s.n, h, "after clean Compact", witFor(s, "none"))
 	outsideAfter := dumpOutside(s, h)
 	if ok && !sameMap(outsideBefore, outsideAfter) {
@@ -368,6 +385,50 @@ func runC07(c *harness.Case) {
 			{"die-after", true, errors.New("injected: compactor dead"), true}}
 		if pos%2 == 0 {
 			modes = append(modes, mode{"fail-one-cas", false, storage.ErrCASFailed, false})
+		}
+		// third kind of execution at this position: a concurrent re-create placed right before an index-record removal
+		if idxPos[pos] {
+			s := buildC07(c, kind, h)
+			if s == nil {
+				return
+			}
+			what := fmt.Sprintf("re-create placed before index removal #%d of %d", pos, D)
+			wit := witFor(s, what)
+			s.recreateAt = int32(pos)
+			placedKey := ""
+			s.recreate = func(key string) {
+				if s.m.Live(key) != nil {
+					return
+				}
+				out := s.n.Do(harness.SeqOp{Kind: "create", Key: key, Val: []byte("recreated-during-compaction")})
+				if out.Err == "" && out.Succeeded {
+					s.m.Put(key, out.Rev, []byte("recreated-during-compaction"))
+					placedKey = key
+				}
+			}
+			_, _ = s.n.B.Compact(harness.Ctx, s.R)
+			s.recreateAt = 0
+			good := true
+			if placedKey != "" {
+				s.n.WaitCommitted(s.n.Dealt(), 30e9)
+				c.Stat("recreates_placed_inside_compaction", 1)
+				// the acknowledged re-create must be durable and the key writable with normal semantics
+				g, gerr := s.n.Get(placedKey, 0)
+				if gerr != nil || g.Kv == nil || string(g.Kv.Value) != "recreated-during-compaction" {
+					c.Violatef("C07 write-acknowledged-during-compaction-lost", wit(), "key %q was re-created (acknowledged) while Compact(%d) ran; afterwards Get = %v %v", placedKey, s.R, g.GetKv(), gerr)
+					good = false
+				}
+				if good {
+					good = s.writesAfter(c, s.n, h, c.Rng, wit)
+				}
+				c.AddExecution(fmt.Sprintf("h%d/recreate-before-index-removal/%d", hIdx, pos))
+			} else {
+				c.AddExecution("")
+			}
+			s.close()
+			if !good {
+				return
+			}
 		}
 		for _, md := range modes {
 			s := buildC07(c, kind, h)
